@@ -126,6 +126,18 @@ class H:
         view[...] = sent.astype(dt) if not complex_ else (sent * (1 - 2j)).astype(dt)
         return self._register(name, view, base, "out")
 
+    def pair(self, out_name, in_name, ncomp=None):
+        """(output record, input record, array to pass as the output).  With case["inplace"] the kernel is used IN PLACE: the
+        output argument is a fresh view OBJECT of the input's memory (same pointer, shape, strides - e.g. `velocity[:]`), which
+        every element-wise kernel admits (each cell is read at offset 0 only, C15)."""
+        if self.case.get("inplace"):
+            f = self.inout(in_name, ncomp)
+            self.ctx.note(labels=["used_in_place_through_a_view_object"])
+            return f, f, f["view"][...]
+        o = self.out(out_name, ncomp)
+        f = self.inp(in_name, ncomp)
+        return o, f, o["view"]
+
     def inout(self, name, ncomp=None, **kw):
         rec = self.inp(name, ncomp=ncomp, **kw)
         rec["role"] = "inout"
@@ -258,21 +270,21 @@ for _ft in ("scalar", "vector"):
     def _e_sum(h, field_type):
         k, _ = _kernel(h, f"gen_elementwise_sum_pyst_kernel_{h.dim}d", field_type=field_type)
         nc = None if field_type == "scalar" else h.dim
-        o, a, b = h.out("sum_field", nc), h.inp("field_1", nc), h.inp("field_2", nc)
+        (o, a, ov), b = h.pair("sum_field", "field_1", nc), h.inp("field_2", nc)
         h.snapshot()
         with h.ctx.repo_call("elementwise_sum"):
-            k(sum_field=o["view"], field_1=a["view"], field_2=b["view"])
+            k(sum_field=ov, field_1=a["view"], field_2=b["view"])
         h.expect(o, _f64(a) + _f64(b), None, _amax(a["pre"]) + _amax(b["pre"]))
 
     @entry("gen_elementwise_saxpby_pyst_kernel_{d}d", field_type=_ft)
     def _e_saxpby(h, field_type):
         k, _ = _kernel(h, f"gen_elementwise_saxpby_pyst_kernel_{h.dim}d", field_type=field_type)
         nc = None if field_type == "scalar" else h.dim
-        o, a, b = h.out("sum_field", nc), h.inp("field_1", nc), h.inp("field_2", nc)
+        (o, a, ov), b = h.pair("sum_field", "field_1", nc), h.inp("field_2", nc)
         pa, pb = h.sc[0], h.sc[1]
         h.snapshot()
         with h.ctx.repo_call("elementwise_saxpby"):
-            k(sum_field=o["view"], field_1=a["view"], field_2=b["view"], field_1_prefac=pa, field_2_prefac=pb)
+            k(sum_field=ov, field_1=a["view"], field_2=b["view"], field_1_prefac=pa, field_2_prefac=pb)
         h.expect(o, pa * _f64(a) + pb * _f64(b), None, abs(pa) * _amax(a["pre"]) + abs(pb) * _amax(b["pre"]))
 
     @entry("gen_set_fixed_val_pyst_kernel_{d}d", field_type=_ft)
@@ -297,17 +309,17 @@ for _ft in ("scalar", "vector"):
     def _e_add(h, field_type):
         k, _ = _kernel(h, f"gen_add_fixed_val_pyst_kernel_{h.dim}d", field_type=field_type)
         if field_type == "scalar":
-            o, a = h.out("sum_field"), h.inp("field")
+            o, a, ov = h.pair("sum_field", "field")
             h.snapshot()
             with h.ctx.repo_call("add_fixed_val"):
-                k(sum_field=o["view"], field=a["view"], fixed_val=h.sc[0])
+                k(sum_field=ov, field=a["view"], fixed_val=h.sc[0])
             h.expect(o, _f64(a) + h.sc[0], None, _amax(a["pre"]) + abs(h.sc[0]))
         else:
-            o, a = h.out("sum_field", h.dim), h.inp("vector_field", h.dim)
+            o, a, ov = h.pair("sum_field", "vector_field", h.dim)
             vals = h.sc[: h.dim]
             h.snapshot()
             with h.ctx.repo_call("add_fixed_val(vector)"):
-                k(sum_field=o["view"], vector_field=a["view"], fixed_vals=vals)
+                k(sum_field=ov, vector_field=a["view"], fixed_vals=vals)
             exp = np.stack([_f64(a)[c] + vals[c] for c in range(h.dim)])
             h.expect(o, exp, None, _amax(a["pre"]) + max(abs(v) for v in vals))
 
@@ -372,15 +384,15 @@ for _ft in ("scalar", "vector"):
         lam = abs(h.sc[0]) * 10.0
         chi = h.inp("char_field", lo=0.0, hi=1.0)
         if field_type == "scalar":
-            o, f, p = h.out("penalised_field"), h.inp("field"), h.inp("penalty_field")
+            (o, f, ov), p = h.pair("penalised_field", "field"), h.inp("penalty_field")
             h.snapshot()
             with h.ctx.repo_call("brinkmann_penalise"):
-                k(penalised_field=o["view"], penalty_factor=lam, char_field=chi["view"], penalty_field=p["view"], field=f["view"])
+                k(penalised_field=ov, penalty_factor=lam, char_field=chi["view"], penalty_field=p["view"], field=f["view"])
         else:
-            o, f, p = h.out("penalised_vector_field", h.dim), h.inp("vector_field", h.dim), h.inp("penalty_vector_field", h.dim)
+            (o, f, ov), p = h.pair("penalised_vector_field", "vector_field", h.dim), h.inp("penalty_vector_field", h.dim)
             h.snapshot()
             with h.ctx.repo_call("brinkmann_penalise(vector)"):
-                k(penalised_vector_field=o["view"], penalty_factor=lam, char_field=chi["view"],
+                k(penalised_vector_field=ov, penalty_factor=lam, char_field=chi["view"],
                   penalty_vector_field=p["view"], vector_field=f["view"])
         c = _f64(chi)
         h.expect(o, (_f64(f) + lam * c * _f64(p)) / (1 + lam * c), None, _amax(f["pre"]) + (1 + lam) * _amax(p["pre"]))
@@ -392,18 +404,18 @@ for _ft in ("scalar", "vector"):
         chi = h.inp("char_field", lo=0.0, hi=1.0)
         c = _f64(chi)
         if field_type == "scalar":
-            o, f = h.out("penalised_field"), h.inp("field")
+            o, f, ov = h.pair("penalised_field", "field")
             pv = h.sc[1]
             h.snapshot()
             with h.ctx.repo_call("brinkmann_penalise_vs_fixed_val"):
-                k(penalised_field=o["view"], penalty_factor=lam, char_field=chi["view"], penalty_val=pv, field=f["view"])
+                k(penalised_field=ov, penalty_factor=lam, char_field=chi["view"], penalty_val=pv, field=f["view"])
             h.expect(o, (_f64(f) + lam * c * pv) / (1 + lam * c), None, _amax(f["pre"]) + (1 + lam) * abs(pv))
         else:
-            o, f = h.out("penalised_vector_field", 2), h.inp("vector_field", 2)
+            o, f, ov = h.pair("penalised_vector_field", "vector_field", 2)
             pv = h.sc[1:3]
             h.snapshot()
             with h.ctx.repo_call("brinkmann_penalise_vs_fixed_val(vector)"):
-                k(penalised_vector_field=o["view"], penalty_factor=lam, char_field=chi["view"], penalty_val=pv, vector_field=f["view"])
+                k(penalised_vector_field=ov, penalty_factor=lam, char_field=chi["view"], penalty_val=pv, vector_field=f["view"])
             exp = np.stack([(_f64(f)[i] + lam * c * pv[i]) / (1 + lam * c) for i in range(2)])
             h.expect(o, exp, None, _amax(f["pre"]) + (1 + lam) * max(abs(v) for v in pv))
 
@@ -828,6 +840,8 @@ def _strategy(tier, ki):
                                                st.sampled_from([0.0, 0.0, 1.0, -1.0, -0.0])), min_size=4, max_size=4)),
             "dx": dx,
             "couple": draw(st.integers(0, 2)) == 0,
+            # element-wise kernels used in place through a fresh view object of the input (entries that support it)
+            "inplace": draw(st.integers(0, 2)) == 0,
         }
 
     return case()
